@@ -107,6 +107,9 @@ func runC15(c *Ctx) {
 	checkCRCOptional(c, "dedup.crc-optional")
 	checkWriterChannelsUnbuffered(c, "writer.channels-unbuffered")
 	checkNoReuseAfterSend(c, "join.no-reuse-after-send", concPkgs...)
+	checkBlobPutsIdempotent(c, "writer.blob-puts-idempotent")
+	// the object store under test: an overwrite of a key (blobs shared by concurrent uploads) is never visible truncated
+	checkLocalfsPutOpens(c, c.P.Func("pkg/storage/localfs.localFS.Put"))
 }
 
 type concGuard struct {
